@@ -3,7 +3,10 @@ use diagnostics::Diagnostics;
 use indexmap::IndexMap;
 use la_arena::{Arena, Idx};
 use parser::syntax::MySyntaxNodePtr;
+#[cfg(not(goml_verif))]
 use std::collections::HashMap;
+#[cfg(goml_verif)]
+use crate::verif_hash::HashMap;
 use std::path::PathBuf;
 
 #[derive(Debug, Clone)]
